@@ -74,7 +74,7 @@ func nsOptions(cfg nsCfg) ExportOptions {
 }
 
 func nsPlant(fs *recfs.FS, initial string) {
-	if initial != "rich" && initial != "held" {
+	if initial != "rich" && initial != "held" && initial != "afterneg" {
 		return
 	}
 	vMust(fs.Mkdir("/a", 0o755), "mkdir")
@@ -82,6 +82,9 @@ func nsPlant(fs *recfs.FS, initial string) {
 	vMust(err, "create")
 	f.Write([]byte("xy"))
 	f.Close()
+	if initial == "afterneg" {
+		return // "/b" is made, probed and removed again by requests (nsNew)
+	}
 	vMust(fs.Symlink("a", "/b"), "symlink") // link to a directory
 }
 
@@ -95,6 +98,13 @@ func nsNew(cfg nsCfg, prop string, c *vCtx) *nsState {
 		h, err := e.mnt("/")
 		vMust(err, "mnt")
 		side.handles["/"] = h
+		if cfg.Initial == "afterneg" {
+			for _, p := range []string{"/a", "/a/b"} {
+				fh, err := e.lookupFH(side.handles[path.Dir(p)], path.Base(p))
+				vMust(err, "lookup "+p)
+				side.handles[p] = fh
+			}
+		}
 		if cfg.Initial == "held" {
 			// the client already holds a handle for every planted object
 			for _, p := range []string{"/a", "/b", "/a/b"} {
@@ -114,9 +124,16 @@ func nsNew(cfg nsCfg, prop string, c *vCtx) *nsState {
 		s.model["/a/b"] = &nsNode{kind: "f", data: "xy"}
 		s.model["/b"] = &nsNode{kind: "l", target: "a"}
 	}
+	if cfg.Initial == "afterneg" {
+		s.model["/a"] = &nsNode{kind: "d"}
+		s.model["/a/b"] = &nsNode{kind: "f", data: "xy"}
+	}
 	s.held = []string{"/"}
 	if cfg.Initial == "held" {
 		s.held = []string{"/", "/a", "/a/b", "/b"}
+	}
+	if cfg.Initial == "afterneg" {
+		s.held = []string{"/", "/a", "/a/b"}
 	}
 	s.objAt = map[string]int{}
 	for _, n := range s.model {
@@ -125,6 +142,14 @@ func nsNew(cfg nsCfg, prop string, c *vCtx) *nsState {
 	}
 	for _, p := range s.held {
 		s.objAt[p] = s.model[p].id
+	}
+	if cfg.Initial == "afterneg" {
+		// a non-initial start state reached by requests: a directory /b existed, the client
+		// looked up two names in it that did not exist, and removed it again; the client still
+		// holds the (now dangling) handle, the server whatever it cached below /b
+		for _, op := range []nsOp{{Kind: "mkdir", H: "/", Name: "b"}, {Kind: "lookup", H: "/b", Name: "a"}, {Kind: "lookup", H: "/b", Name: "b"}, {Kind: "rmdir", H: "/", Name: "b"}} {
+			s.apply(op, false, nil)
+		}
 	}
 	return s
 }
@@ -250,6 +275,9 @@ func (s *nsState) enabled() []nsOp {
 			if s.prop == "C02" {
 				ops = append(ops, nsOp{Kind: "symlink", H: h, Name: n, Target: "b/x"})
 			}
+			if s.prop == "C04" { // UNCHECKED CREATE with size 0 in its attributes: truncates an existing file
+				ops = append(ops, nsOp{Kind: "createtrunc", H: h, Name: n})
+			}
 		}
 	}
 	for _, d1 := range dirs {
@@ -327,6 +355,17 @@ func (s *nsState) expect(op nsOp) nsVerdict {
 		return nsVerdict{ok: s.isDir(op.H)}
 	case "lookup":
 		return nsVerdict{ok: s.isDir(op.H) && s.model[child] != nil}
+	case "createtrunc":
+		if !s.isDir(op.H) {
+			return fail
+		}
+		if n := s.model[child]; n != nil {
+			if n.kind != "f" {
+				return fail
+			}
+			return nsVerdict{ok: true, apply: func() { n.data = "" }}
+		}
+		return nsVerdict{ok: true, apply: func() { s.model[child] = &nsNode{kind: "f"} }}
 	case "create":
 		if !s.isDir(op.H) {
 			return fail
@@ -475,6 +514,9 @@ func (side *nsSide) do(op nsOp) nsReply {
 	case "create":
 		proc = wire.CREATE
 		a.FH(h).Str(op.Name).U32(0).Sattr(wire.Sattr{})
+	case "createtrunc":
+		proc = wire.CREATE
+		a.FH(h).Str(op.Name).U32(0).Sattr(wire.Sattr{Size: wire.U64p(0)})
 	case "mkdir":
 		proc = wire.MKDIR
 		a.FH(h).Str(op.Name).Sattr(wire.Sattr{})
@@ -541,7 +583,7 @@ func (side *nsSide) do(op nsOp) nsReply {
 	case "lookup":
 		put(child, res.Attr)
 		put(op.H, res.DirAttr)
-	case "create", "mkdir", "symlink":
+	case "create", "createtrunc", "mkdir", "symlink":
 		put(child, res.Attr)
 		if res.Wcc != nil {
 			put(op.H, res.Wcc.After)
@@ -872,13 +914,16 @@ func init() {
 	vRegister(&vCheck{
 		id: "C02", level: "model_checking", flavour: "vtime",
 		shards: func(string) int { return 16 },
-		rule: "breadth-first search over request histories of LOOKUP, CREATE, MKDIR, SYMLINK (targets a, b/x), REMOVE, RMDIR, RENAME (all pairs of held directory handles and names), READDIR, READDIRPLUS, GETATTR, READLINK over names {a,b}, issued through every handle the model client holds (including handles of objects since removed or renamed), on the real server in lockstep with an uncached twin; configurations: attribute TTL {1ns,1h} x directory cache {off,on} x negative caching {off,on}, from an empty export, from a tree with a directory, a file and a symlink to a directory, and from that tree with the client already holding a handle for every object, plus a clock jump beyond every TTL as an operation; depth 2 for every configuration, 3 for the uncached and the fully cached one from the empty export and for every cached configuration from the all-handles-held start (thorough: one more everywhere); states deduplicated on (model tree, backend tree, handle tables, per-handle attributes, attribute/negative/directory cache contents with validity). Oracles after every transition: success/failure agrees with the POSIX-like tree model (with measured latitude), the backend tree equals the model tree and is unchanged by a failed request, listings and link targets equal the tree, and the reply equals the uncached twin's reply (status, names, targets, type/size/mode/fileid).",
+		rule: "breadth-first search over request histories of LOOKUP, CREATE, MKDIR, SYMLINK (targets a, b/x), REMOVE, RMDIR, RENAME (all pairs of held directory handles and names), READDIR, READDIRPLUS, GETATTR, READLINK over names {a,b}, issued through every handle the model client holds (including handles of objects since removed or renamed), on the real server in lockstep with an uncached twin; configurations: attribute TTL {1ns,1h} x directory cache {off,on} x negative caching {off,on}, from an empty export, from a tree with a directory, a file and a symlink to a directory, from that tree with the client already holding a handle for every object, and (negative caching on) from a state reached by requests in which a directory was created, probed for two missing names and removed again, plus a clock jump beyond every TTL as an operation; depth 2 for every configuration, 3 for the uncached and the fully cached one from the empty export and for every cached configuration from the all-handles-held start and the probed-and-removed-directory start (thorough: one more everywhere); states deduplicated on (model tree, backend tree, handle tables, per-handle attributes, attribute/negative/directory cache contents with validity). Oracles after every transition: success/failure agrees with the POSIX-like tree model (with measured latitude), the backend tree equals the model tree and is unchanged by a failed request, listings and link targets equal the tree, and the reply equals the uncached twin's reply (status, names, targets, type/size/mode/fileid).",
 		assumptions: []string{"handles are path-based: a request through a handle is judged against the object now at the path the handle was issued for",
 			"latitude: REMOVE of an empty directory may succeed or fail; RENAME onto an existing compatible object may replace it or fail (the backend refuses)"},
 		run: func(c *vCtx) {
 			var cfgs []nsCfg
-			for _, ini := range []string{"empty", "rich", "held"} {
+			for _, ini := range []string{"empty", "rich", "held", "afterneg"} {
 				for _, cf := range nsConfigs() {
+					if ini == "afterneg" && !cf.NegC {
+						continue // this start state is about negative entries left below a removed directory
+					}
 					cf.Initial = ini
 					cfgs = append(cfgs, cf)
 				}
@@ -892,7 +937,7 @@ func init() {
 				if edge && cf.Initial == "empty" {
 					d++
 				}
-				if cf.Initial == "held" && (cf.DirC || cf.NegC || cf.TTL > 1) {
+				if (cf.Initial == "held" || cf.Initial == "afterneg") && (cf.DirC || cf.NegC || cf.TTL > 1) {
 					d++ // the client starts with every handle: cache effects of cross-directory operations are 3 requests away
 				}
 				return d
@@ -903,7 +948,7 @@ func init() {
 	vRegister(&vCheck{
 		id: "C04", level: "model_checking", flavour: "vtime",
 		shards: func(string) int { return 16 },
-		rule: "breadth-first search over request histories of the C02 alphabet plus ACCESS, READ, WRITE (one byte appended), COMMIT, FSSTAT, FSINFO, PATHCONF, SETATTR(mode in {0,0644,0755,07777,0644|1<<27,0755|1<<31,0x4000|0755}), SETATTR(size), SETATTR(uid,gid) through every held handle, from a tree containing a directory, a regular file and a symlink to a directory, and from an empty export, with attribute TTL {1ns,1h} and directory cache {off,on}; depth 3 (thorough 4); every fattr3 / post-op attribute / wcc after-attribute / READDIRPLUS entry carried by a reply is harvested and compared with the backend's lstat of that path (file type, size of regular files, permission bits) and with the fileid every other reply gave for the same unchanged path; after a successful SETATTR the same handle must still answer GETATTR (and READDIR for a directory).",
+		rule: "breadth-first search over request histories of the C02 alphabet plus CREATE with size 0 in its attributes (truncating an existing file), ACCESS, READ, WRITE (one byte appended), COMMIT, FSSTAT, FSINFO, PATHCONF, SETATTR(mode in {0,0644,0755,07777,0644|1<<27,0755|1<<31,0x4000|0755}), SETATTR(size), SETATTR(uid,gid) through every held handle, from a tree containing a directory, a regular file and a symlink to a directory, and from an empty export, with attribute TTL {1ns,1h} and directory cache {off,on}; depth 3 (thorough 4); every fattr3 / post-op attribute / wcc after-attribute / READDIRPLUS entry carried by a reply is harvested and compared with the backend's lstat of that path (file type, size of regular files, permission bits) and with the fileid every other reply gave for the same unchanged path; after a successful SETATTR the same handle must still answer GETATTR (and READDIR for a directory).",
 		assumptions: []string{"ground truth is lstat on the recording backend at the time of the reply", "sizes are compared for regular files only"},
 		run: func(c *vCtx) {
 			var cfgs []nsCfg
